@@ -237,6 +237,27 @@ def shard_history(args):
                             first_seen[key] = r
                         elif first_seen[key] != r:
                             acc.failure("C03:decoding_depends_on_history", {"seq": seq.hex(), "encoding": enc, "mode": mi, "full": full}, "first %r, later %r" % (first_seen[key], r))
+    # held-down keys: RUN identical calls in a row (same bytes, encoding, naming mode, full) before the next encoding is tried -
+    # anything that warms up only on repetition (a memo, an adaptive fast path) is warm when the other encodings ask
+    RUN = 40
+    for oi, encs in enumerate(orders):
+        modes = mode_orders[(oi + 1) % len(mode_orders)]
+        for seq in seqs:
+            lst = [seq[i : i + 1] for i in range(len(seq))]
+            for mi in modes:
+                for full in (False, True):
+                    for enc in encs:
+                        key = (seq, enc, mi, full)
+                        for rep in range(RUN):
+                            try:
+                                r = ("key", ref.events.get_key(lst, enc, keynames=ref.modes[mi], full=full))
+                            except Exception as ex:  # noqa
+                                r = ("exc", type(ex).__name__)
+                            acc.transitions += 1
+                            if first_seen[key] != r:
+                                acc.failure("C03:decoding_depends_on_history", {"seq": seq.hex(), "encoding": enc, "mode": mi, "full": full, "after_identical_calls": rep, "encoding_order": list(encs)}, "first %r, later %r" % (first_seen[key], r))
+                                break
+                        acc.case(True, key=("run", oi) + key)
     # the process has now decoded everything in every order: the per-state oracles (and the mode lock-step of C20) must still hold
     for seq in seqs:
         for enc in D.ENCODINGS:
